@@ -16,7 +16,7 @@ ASSUMPTIONS = [
     'degree reduction uses the default penalty',
 ]
 OUTSIDE = ['objectives with more than 4 monomials', 'n + ancillas > 9', 'symbolic constraint polynomials (C02/C03 cover those)', 'different weights per constraint', 'float rounding']
-BOUNDS = {'quick': {'forms': ['model itself', 'to_qubo', 'to_quso', 'solve_bruteforce (n+ancillas<=5)'], 'menus': '10 (comparison constraints, log_trick both ways, two- and three-input logical constraints)'},
+BOUNDS = {'quick': {'forms': ['model itself', 'to_qubo', 'to_quso', 'solve_bruteforce (n+ancillas<=5)'], 'menus': '13 (comparison constraints, log_trick both ways, two- and three-input logical constraints)'},
           'thorough': {'forms': ['model itself', 'to_qubo', 'to_quso', 'to_pubo', 'to_puso', 'solve_bruteforce'], 'menus': 'all'}}
 
 from .c06 import GATES, truth
@@ -37,6 +37,11 @@ MENU_B = {
     'le_pair': [('le', {('x0',): 1, ('x1',): 1, (): -1}, True)],
     'le_deep_nolog': [('le', {('x0',): 1, ('x2',): -3}, False)],
     'ge_deep_nolog': [('ge', {('x1',): 4, ('x0',): -1, ('x2',): -1, (): -1}, False)],
+    'ne_lopsided': [('ne', {('x0',): 1, ('x1',): 2, (): -2}, True)],                     # range -2..1: more room below zero than above
+    'ne_lopsided_nolog': [('ne', {('x0',): 1, ('x1',): 1, ('x2',): 1, (): -3}, False)],
+    'eq_zxy': [('eq', {('x2',): 1, ('x0', 'x1'): 1}, True)],                                # NOT the z == x*y special form (same signs)
+    'eq_2z2xy+le': [('eq', {('x2',): 2, ('x0', 'x1'): 2}, True), ('le', {('x0',): 1, ('x1',): 1, (): -1}, True)],
+    'eq_z-xy': [('eq', {('x2',): 1, ('x0', 'x1'): -1}, True)],                               # the special form itself
     # logical constraints with three inputs (the output is the first label)
     'eqOR3': [('eq_OR', ('x3', 'x0', 'x1', 'x2'), None)],
     'eqNOR3+NAND': [('eq_NOR', ('x3', 'x0', 'x1', 'x2'), None), ('NAND', ('x0', 'x3'), None)],
@@ -55,6 +60,8 @@ MENU_S = {
     'ne': [('ne', {('x0',): 1, ('x1',): 1, ('x2',): 1, (): 1}, True)],
     'lt_nolog': [('lt', {('x0',): 1, ('x2',): 1, (): -1}, False)],
     'gt+le': [('gt', {('x0',): 1, ('x1',): 1, (): 1}, True), ('le', {('x1',): 1, ('x2',): 1, (): 0}, True)],
+    'ne_lopsided': [('ne', {('x0',): 1, ('x1',): 2, (): -1}, True)],                     # values -4, -2, 0, 2
+    'eq_zxy': [('eq', {('x2',): 1, ('x0', 'x1'): 1, (): 0}, True)],
 }
 
 
@@ -195,8 +202,8 @@ def jobs(tier, seed):
                       args=dict(spin=spin, menu=menu, form=form, U=U), budget_s=budget if tier == 'quick' else 2400, final_timeout_ms=120000))
     if tier == 'quick':
         forms = ['H', 'to_qubo', 'to_quso', 'solve_bruteforce']
-        mb = ['le_sum', 'eq+ne', 'gt_nolog', 'AND+lt', 'OR+eqAND', 'lt+le', 'le_deep_nolog', 'eqOR3', 'eqNOR3+NAND', 'eqXOR+NOR']
-        ms = ['le_sum', 'eq', 'gt+ge', 'gt+le', 'le_deep_nolog']
+        mb = ['le_sum', 'eq+ne', 'gt_nolog', 'AND+lt', 'OR+eqAND', 'lt+le', 'le_deep_nolog', 'eqOR3', 'eqNOR3+NAND', 'eqXOR+NOR', 'ne_lopsided', 'eq_zxy', 'eq_z-xy']
+        ms = ['le_sum', 'eq', 'gt+ge', 'gt+le', 'le_deep_nolog', 'ne_lopsided', 'eq_zxy']
     else:
         forms = ['H', 'to_qubo', 'to_quso', 'to_pubo', 'to_puso', 'solve_bruteforce']
         mb, ms = list(MENU_B), list(MENU_S)
